@@ -408,6 +408,102 @@ var ruleCfgG4 = &Rule{
 				}
 			}
 		}
+		// interprocedural part: a call that is executed only when Y is not switched off, to a function that
+		// (transitively, depth 3) emits a diagnostic of another constant type
+		emitsDirect := map[*ssa.Function]map[int64]bool{}
+		for _, f := range c.ModFns() {
+			for _, b := range f.Blocks {
+				for _, ins := range b.Instrs {
+					call, ok := ins.(*ssa.Call)
+					if !ok {
+						continue
+					}
+					sc := call.Call.StaticCallee()
+					if sc == nil || (sc.Name() != "InsertError" && sc.Name() != "InsertRelateError") || sc.Pkg == nil || sc.Pkg.Pkg.Path() != resultsPkg || len(call.Call.Args) < 2 {
+						continue
+					}
+					if x, ok := errTypeConst(call.Call.Args[1]); ok {
+						if emitsDirect[f] == nil {
+							emitsDirect[f] = map[int64]bool{}
+						}
+						emitsDirect[f][x] = true
+					}
+				}
+			}
+		}
+		var emitsOf func(g *ssa.Function, d int, seen map[*ssa.Function]bool) map[int64]bool
+		emitsOf = func(g *ssa.Function, d int, seen map[*ssa.Function]bool) map[int64]bool {
+			out := map[int64]bool{}
+			if g == nil || seen[g] || d > 3 {
+				return out
+			}
+			seen[g] = true
+			for x := range emitsDirect[g] {
+				out[x] = true
+			}
+			for _, b := range g.Blocks {
+				for _, ins := range b.Instrs {
+					if call, ok := ins.(*ssa.Call); ok {
+						if sc := call.Call.StaticCallee(); sc != nil && c.IsModFn(sc) && strings.HasPrefix(sc.Name(), "cg") == false {
+							for x := range emitsOf(sc, d+1, seen) {
+								out[x] = true
+							}
+						}
+					}
+				}
+			}
+			return out
+		}
+		nInter := 0
+		for _, f := range c.ModFns() {
+			guards := ignoreGuards(f, "IsGlobalIgnoreErrType", 1)
+			if len(guards) == 0 {
+				continue
+			}
+			cnt := map[string]int{}
+			for _, b := range f.Blocks {
+				for _, ins := range b.Instrs {
+					call, ok := ins.(*ssa.Call)
+					if !ok {
+						continue
+					}
+					g := call.Call.StaticCallee()
+					if g == nil || !c.IsModFn(g) || g == f || strings.HasPrefix(g.Name(), "cg") {
+						continue // the recursive walker (cg*) re-enters every check: not a per-check helper
+					}
+					for _, gd := range guards {
+						y, ok := errTypeConst(gd.typ)
+						if !ok || !dominatedByKept(gd, b) {
+							continue
+						}
+						em := emitsOf(g, 0, map[*ssa.Function]bool{})
+						var foreign []string
+						for x := range em {
+							if x != y {
+								foreign = append(foreign, errTypeName(c, x))
+							}
+						}
+						if len(em) == 0 {
+							continue
+						}
+						nInter++
+						k := fmt.Sprintf("CFG/G4:%s:call-%s", fnKey(f), g.Name())
+						cnt[k]++
+						if cnt[k] > 1 {
+							k = fmt.Sprintf("%s#%d", k, cnt[k])
+						}
+						if len(foreign) > 0 {
+							sort.Strings(foreign)
+							obs = append(obs, Ob{Key: k, Site: c.Pos(call.Pos()), Verdict: VIOLATION,
+								Note: fmt.Sprintf("%s is called only when %s is NOT switched off, but it emits %s: turning that check off silences these too", g.Name(), errTypeName(c, y), strings.Join(foreign, ", "))})
+						} else {
+							obs = append(obs, Ob{Key: k, Site: c.Pos(call.Pos()), Verdict: OK})
+						}
+					}
+				}
+			}
+		}
+		c.Stats["guarded_calls_to_emitters"] = nInter
 		c.Stats["diagnostic_emission_sites"] = nEm
 		c.Stats["diagnostic_emission_sites_guarded"] = nGuarded
 		obs = append(obs, floor("CFG/G4-guard-emission-agreement", "constant-type emission sites", nEm, 40))
